@@ -640,6 +640,11 @@ def sandwich(tier="quick", start_id=0):
                 ("ld/st/rwlock", warm + ld, warm2 + st, "rwlock", 12, 12)]
     pairs_t += [("cas/sw/rwlock", warm + cas, warm2 + sw, "rwlock", 16, 14), ("rcu/st/rwlock", warm + rcu, warm2 + st, "rwlock", 16, 12),
                 ("ld/st/rwlock", warm + ld, warm2 + st, "rwlock", 12, 12), ("rcu/rcu/rwlock", warm + rcu, warm2 + [{"op": "rcu", "c": 0, "h": 43}, {"op": "deref_h", "h": 43}], "rwlock", 16, 16)]
+    # projections (C17): a load through the Access machinery stopped at every point while a store completes
+    for kind in (0, 1, 2, 3, 5):
+        acc = [{"op": "acc_load", "c": 0, "p": 70, "kind": kind}, {"op": "deref_p", "p": 70}, {"op": "drop_p", "p": 70}]
+        pairs_q += [("acc%d/st/nofast" % kind, warm + acc, warm2 + st, "nofast", 34, 2), ("acc%d/st" % kind, warm + acc, warm2 + st, "default", 30, 2)]
+        pairs_t += [("acc%d/st/nofast" % kind, warm + acc, warm2 + st, "nofast", 34, 44), ("acc%d/st" % kind, warm + acc, warm2 + st, "default", 30, 44)]
     ser = [{"op": "ser", "c": 0}]
     pairs_q += [("cas/aba", warm + cas, aba, "default", 40, 2), ("rcu/aba", warm + rcu, aba, "default", 40, 2),
                 ("ser/st", warm + ser, warm2 + st, "default", 24, 2)]
